@@ -1,10 +1,13 @@
 import PfModel.DriverVal
 import PfModel.Model.Sched
+import PfModel.Model.SchedPart
+import PfModel.Model.SchedExec
+import PfModel.Model.SchedOps
 /-! Driver for C03 (`map.sched`): the parallel map runner `PF.Sched.runMapSched` under a given family of schedules
     (`orders`: per generation the (function name, future position) pairs in execution order) and `dump_in_subprocess`
     assignment (`dump_sub`: output names); reports the result, whether it equals the sequential runner's (`PF.Map.runMap`),
     the barrier on the execution log, and per generation the submitted ids, the execution order, the call log and the dumps. -/
-open Lean PF PF.Drv PF.Map PF.Sched
+open Lean PF PF.Drv PF.Map PF.Sched PF.Pieces PF.SchedP PF.SchedX
 
 def getASpec (j : Json) : R ASpec := do
   let (n, ax) ← asPair asStr (asList (asOpt asStr)) j
@@ -51,8 +54,143 @@ def schedOf (fs : List MFunc) (orders : List (List (String × Nat))) : Scheds :=
   | some ord, some gen => ord.filterMap fun (nm, k) => (gen.findIdx? (·.name = nm)).map fun j => (j, k)
   | _, _ => ids
 
+/-! ### `part.sched`: parallel runs on a non-fresh store / with fixed indices, sync and async awaiting -/
+
+/-- an `int`, or `{"sl": [start, stop, step]}` with `null` for an omitted bound (schema of `Driver/C06.lean`) -/
+def getSel (j : Json) : R Sel :=
+  match j with
+  | .num _ => do return .idx (← asInt j)
+  | _ => do
+    match ← asList (asOpt asInt) (← fld j "sl") with
+    | [a, b, c] => return .slice a b c
+    | _ => .error "slice needs three entries"
+
+def getFixed (j : Json) : R (Option (List (String × Sel))) := asOpt (asList (asPair asStr getSel)) j
+
+def putPartRes (r : PartResult) : Json :=
+  jObj [("outputs", putKw r.res.outputs), ("calls", jList putCall r.res.calls),
+        ("stored", putKw (r.store.map fun (o, s) => (o, s.toVal))),
+        ("present", jList (jPair jStr (jOpt (jList jNat))) (r.store.map fun (o, s) => (o, presentOf s)))]
+
+/-- a family of schedules for a partial run from per-generation lists of (function name, external linear index — ignored
+    for an un-mapped function) in execution order: the index is translated into the position in `args.missing` -/
+def schedOfP (fs : List MFunc) (shapes : List (String × List Nat)) (masks : List (String × List Bool))
+    (fixed : Option (List (String × Sel))) (old : List (String × Slot)) (orders : List (List (String × Nat))) : Scheds := fun g ids =>
+  match orders[g]?, (generations fs)[g]? with
+  | some ord, some gen =>
+    ord.filterMap fun (nm, li) =>
+      match gen.findIdx? (·.name = nm) with
+      | none => none
+      | some j =>
+        match (gen[j]?).map (planOfP shapes masks fixed old) with
+        | some (.mapped _ _ _ _ todo) => (todo.findIdx? (· = li)).map fun k => (j, k)
+        | some .single => some (j, 0)
+        | _ => none
+  | _, _ => ids
+
+/-- one generation at the granularity of storage operations (`runGenOps`), under an adversarial interleaving derived from the
+    schedule: every load of a body sees the dumps of *all other* bodies (in reverse), the dump operations land in reverse -/
+def opsRunner (mode : Await) (fs : List MFunc) (shapes : List (String × List Nat)) (masks : List (String × List Bool))
+    (fixed : Option (List (String × Sel))) (old : List (String × Slot)) (dumpSub : String → Bool) (sched : Scheds)
+    (g : Nat) (env : Env) (gen : List MFunc) : M (List FuncResult × GenTrace) := do
+  let pg := plannedP shapes masks fixed old gen
+  let ids := sched g (idsFromP 0 pg)
+  let Vs : TaskId → Views := fun id _ =>
+    (dumpOps dumpSub fs shapes masks old env gen pg (fun _ _ => []) (ids.filter (· != id))).reverse
+  let W := (dumpOps dumpSub fs shapes masks old env gen pg Vs ids).reverse
+  let rs ← runGenOps mode fs shapes masks fixed old dumpSub env gen ids Vs W
+  pure (rs, { ids := idsFromP 0 pg, ran := ids, calls := [], dumps := [] })
+
+/-- outputs and stored data of a whole run at operation granularity -/
+def opsRun (mode : Await) (fs : List MFunc) (inputs : List (String × Val)) (shapes : List (String × List Nat)) (masks : List (String × List Bool))
+    (fixed : Option (List (String × Sel))) (old : List (String × Slot)) (dumpSub : String → Bool) (sched : Scheds) : Json :=
+  match runGensG (opsRunner mode fs shapes masks fixed old dumpSub sched) 0 (generations fs) { inputs := inputs, store := [] } with
+  | .error e => putMErr e
+  | .ok (rs, env, _) => jObj [("outputs", putKw (rs.flatMap (·.outputs))), ("stored", putKw (env.store.map fun (o, s) => (o, s.toVal))),
+                              ("calls", jList putCall (rs.flatMap (·.calls)))]
+
+def putTrace (tr : GenTrace) : Json :=
+  jObj [("ids", jList putId tr.ids), ("ran", jList putId tr.ran), ("calls", jList putCall tr.calls), ("dumps", jList putDump tr.dumps)]
+
+/-- the parts in order on one folder, stopping at the first refusal; every part is also run sequentially (`runPart`) on the
+    same previous store and with the other way of awaiting, and the three answers are compared -/
+def runPartsObs (fs : List MFunc) (inputs : List (String × Val)) (ui : List (String × List Nat)) (dumpSub : String → Bool) (mode : Await) :
+    List (Option (List (String × Sel)) × List (List (String × Nat))) → List (String × Slot) → R (List Json)
+  | [], _ => pure []
+  | (fixed, orders) :: ps, old => do
+    let sm := match mapShapes fs inputs (constructInternal fs ui) with | .ok sm => sm | .error _ => ([], [])
+    let sched := schedOfP fs sm.1 sm.2 fixed old orders
+    let seqJ := match runPart fs inputs ui fixed old with | .error e => putMErr e | .ok r => putPartRes r
+    -- the transported schedule must be a permutation of the futures the model submits (they depend on the plan only); if it
+    -- is not, the tasks the implementation handed to its executors are not the model's futures: reported, not replayed
+    let idsOf := (generations fs).map fun gen => idsFromP 0 (plannedP sm.1 sm.2 fixed old gen)
+    let bad := (List.zip (List.range idsOf.length) idsOf).filter fun (g, ids) => !((sched g ids).isPerm ids)
+    if !bad.isEmpty && (match seqJ with | .obj _ => !(seqJ.getObjVal? "err").isOk | _ => true) then
+      return [jObj [("not_perm", jList (fun (gi : Nat × List TaskId) => jObj [("gen", jNat gi.1), ("ids", jList putId gi.2),
+                                          ("ran", jList putId (sched gi.1 gi.2))]) bad), ("seq", seqJ)]]
+    let other : Await := match mode with | .sync => .gather | .gather => .sync
+    let otherJ := match runPartSched other fs inputs ui fixed old dumpSub sched with
+      | .error e => putMErr e
+      | .ok (r, trs) => jObj [("res", putPartRes r), ("trace", jList putTrace trs)]
+    match runPartSched mode fs inputs ui fixed old dumpSub sched with
+    | .error e =>
+      return [jObj [("part", putMErr e), ("equal", jBool ((putMErr e).compress == seqJ.compress)),
+                    ("modes_agree", jBool (match otherJ with | .obj _ => (otherJ.getObjVal? "err").isOk | _ => false))]]
+    | .ok (r, trs) =>
+      let rJ := putPartRes r
+      let opsJ := opsRun mode fs inputs sm.1 sm.2 fixed old dumpSub sched
+      let wantOps := jObj [("outputs", putKw r.res.outputs), ("stored", putKw (r.store.map fun (o, s) => (o, s.toVal))),
+                           ("calls", jList putCall r.res.calls)]
+      let meJ := jObj [("res", rJ), ("trace", jList putTrace trs)]
+      let rest ← runPartsObs fs inputs ui dumpSub mode ps r.store
+      return jObj [("part", rJ), ("equal", jBool (rJ.compress == seqJ.compress)), ("modes_agree", jBool (meJ.compress == otherJ.compress)),
+                   ("ops_equal", jBool (opsJ.compress == wantOps.compress)),
+                   ("barrier", jBool (barrierOk (runLog 0 trs))), ("trace", jList putTrace trs)] :: rest
+
+/-! ### `exec.select`: the executor-selection rule -/
+
+def getXKey (j : Json) : R XKey :=
+  match j with
+  | .str s => pure (.name s)
+  | _ => do return .tuple (← asList asStr j)
+
+def putChoice : Choice String → Json
+  | .inParent => jObj [("in_parent", jBool true)]
+  | .submit e => jObj [("submit", jStr e)]
+  | .refuse => jObj [("refuse", jBool true)]
+
 def handle (m : String) (a : Json) : R Json := do
   match m with
+  | "part.sched" =>
+    let fs ← listF getMFunc a "funcs"
+    let inputs ← getKw (← fld a "inputs")
+    let internal := (← optF (asList (asPair asStr (asList asNat))) a "internal").getD []
+    let dumpSubL := (← optF (asList asStr) a "dump_sub").getD []
+    let dumpSub : String → Bool := fun o => dumpSubL.contains o
+    let mode : Await ← match ← strF a "mode" with
+      | "sync" => pure Await.sync
+      | "gather" => pure Await.gather
+      | other => .error s!"unknown mode {other}"
+    let parts ← listF (fun j => do
+      let fixed ← getFixed ((fld? j "fixed").getD Json.null)
+      let orders := (← optF (asList (asList (asPair asStr asNat))) j "orders").getD []
+      pure (fixed, orders)) a "parts"
+    return jObj [("unique_outputs", jBool (uniqueOutputs fs)), ("parts", jArr (← runPartsObs fs inputs internal dumpSub mode parts []))]
+  | "exec.select" =>
+    -- executors are named by strings; "<pool>" is the ProcessPoolExecutor `_maybe_executor` creates
+    let parallel ← boolF a "parallel"
+    let gens ← listF (asList (asList asStr)) a "gens"
+    let arg : ExecArg String ← (match fld? a "executor" with
+      | none => pure ExecArg.none
+      | some .null => pure ExecArg.none
+      | some (.str e) => pure (ExecArg.one e)
+      | some j => do
+        let d ← asList (asPair getXKey asStr) j
+        pure (ExecArg.dict d) : R (ExecArg String))
+    match selectAll parallel "<pool>" arg gens with
+    | .error .needsParallel => return jObj [("err", jStr "ValueError"), ("at", jStr "prepare")]
+    | .error (.noExecutor g outs) => return jObj [("err", jStr "ValueError"), ("at", jStr "submit"), ("gen", jNat g), ("outs", jList jStr outs)]
+    | .ok r => return jObj [("choices", jList (jList (jPair (jList jStr) putChoice)) r)]
   | "map.sched" =>
     let fs ← listF getMFunc a "funcs"
     let inputs ← getKw (← fld a "inputs")
